@@ -7,3 +7,5 @@ import OlVerif.Props.C16
 #print axioms OlVerif.C16.writes_api
 #print axioms OlVerif.C16.prints_api
 #print axioms OlVerif.C16.unknown_name_rejected
+#print axioms OlVerif.C16.only_output_touched
+#print axioms OlVerif.C16.seq_frame
